@@ -64,7 +64,7 @@ Theorem C13_isolation_nodes : forall s o, same_elsewhere (op_node o) s (fst (ste
 Proof. exact isolation_nodes. Qed.
 
 Theorem C13_isolation_registry :
-  forall s o k', op_pid o <> Some k' -> (In k' (shreg (fst (step s o))) <-> In k' (shreg s)).
+  forall s o k', o <> ResetMem -> op_pid o <> Some k' -> (In k' (shreg (fst (step s o))) <-> In k' (shreg s)).
 Proof. exact isolation_registry. Qed.
 
 (* stopping releases every qubit and all memory of the application, and only that *)
@@ -90,6 +90,12 @@ Theorem C13_register_ok :
   let r := step s (Init nd app n) in
   snd r = Done /\ app_of (fst r) (nd, app) = Some (fresh_app n).
 Proof. exact register_ok. Qed.
+
+(* a registered id is never registered again, whatever the shared-memory registry says (an
+   external SharedMemoryManager.reset_memories() is an operation of the histories: ResetMem) *)
+Theorem C13_register_live_refused :
+  forall s nd app n a, app_of s (nd, app) = Some a -> step s (Init nd app n) = (s, Fault EAlready).
+Proof. exact register_live_refused. Qed.
 
 (* the pool always has a free qubit, it is the least unused one, and set.remove never
    misses (the model's EFuel / EUsedMissing outcomes are unreachable) *)
@@ -206,6 +212,7 @@ Print Assumptions C13_isolation_registry.
 Print Assumptions C13_stop_releases.
 Print Assumptions C13_reregister_ok.
 Print Assumptions C13_register_ok.
+Print Assumptions C13_register_live_refused.
 Print Assumptions C13_pool_total.
 Print Assumptions C13_pool_least.
 Print Assumptions C13_no_internal_fault.
